@@ -81,7 +81,9 @@ def cases(tier, seed):
             nup = int(rng.integers(0, 3)) if cfg[0] in HAS_UPDATE or (cfg[0] == "optional") else 0
             yield {"flat": bool(cfg[0] == "cdeseason" and rng.random() < 0.4), "cfg": cfg, "n": n, "off": int(rng.choice([0, 5, -30, 10 ** 6])), "idx": "range" if rng.random() < 0.5 else "int", "a": a, "b": b,
                    "gapped": bool(rng.random() < 0.25), "stride": int(rng.choice([1, 1, 1, 2, 3, 5])), "updates": [[int(rng.integers(0, 4)), int(rng.integers(1, 9)), bool(rng.random() < 0.5)] for _ in range(nup)],
-                   "shift": int(rng.choice([1, 7, -30, 10 ** 6])), "dseed": int(rng.integers(0, 2 ** 31))}
+                   "shift": int(rng.choice([1, 7, -30, 10 ** 6])), "dseed": int(rng.integers(0, 2 ** 31)),
+                   # earlier life of the instance: fitted under another configuration of the same class, then reconfigured with set_params
+                   "pre": (lambda same: same[int(rng.integers(0, len(same)))] if rng.random() < 0.35 else None)([c for c in CONFIGS if c[0] == cfg[0]])}
 
 
 def _mk(vals, lo, idxkind, off, positions=None):
@@ -118,6 +120,23 @@ def run_case(case, ctx):
         full = np.where(m, np.nan, full)
     y = _mk(full[:n], 0, case["idx"], off)
     tr = build(cfg)
+    if case.get("pre"):
+        # a used instance must behave like a fresh one once it is reconfigured and fitted again: nothing learned under the earlier
+        # configuration / data may survive (all monitors below then run on the reused instance and compare it with fresh ones)
+        tr = build(case["pre"])
+        m0 = int(rng.integers(12, 40))
+        sp0 = max(case["pre"][1].get("sp", 4), 2)
+        y0 = _mk(40 + 0.3 * np.arange(m0) + 5 * np.sin(2 * np.pi * (np.arange(m0) + 1) / sp0) + rng.normal(0, 1.0, size=m0) if kind != "imputer" else full[:m0], 3, "int", off + 17)
+        try:
+            tr.fit(y0.copy())
+            tr.transform(y0.copy())
+        except Exception:  # noqa
+            pass
+        okp, _ = ctx.call("set_params:exception:" + kind, lambda: tr.set_params(**build(cfg).get_params(deep=False)))
+        if not okp:
+            return
+        ctx.seen("refit-after-reconfiguration", 1)
+        ctx.tag("history:reconfigured")
     ok, _ = ctx.call("fit:exception:" + kind, tr.fit, y.copy())
     if not ok:
         return
